@@ -23,12 +23,30 @@ G = {}
 HOSTILE_FOREIGN = ["%s", "100%d", "%(name)s", "percent%", "{0}", "{name}", "", " ", "a:b", "\\N{X}", "\u00e9l\u00e9ment", "x" * 500]
 
 
-def call_index(unit, element, w, c, rules, same_id=None, foreign_name=None):
+_USED = {}
+
+
+def call_index(unit, element, w, c, rules, same_id=None, foreign_name=None, used=False):
     from metapype.eml import rule
     from metapype.model.node import Node
     from metapype.eml.exceptions import ChildNotAllowedError
     p = c01.realise(unit, element, w, rules, same_id=same_id, prefix="ns0" if same_id else None, unregister=bool(same_id))
     r = rule.get_rule(element) if element else rule.Rule(unit)
+    earlier = None
+    if used:
+        # the parent's rule as an object with a past: ONE object per rule for the whole worker that has validated this
+        # very parent (collecting, then fail-fast) before it is asked; its answer must be the one of a fresh object,
+        # and the error list of the earlier validation is the caller's, not the rule's
+        r = _USED.get(unit)
+        if r is None:
+            r = _USED[unit] = rule.Rule(unit)
+        earlier = []
+        for errs in (earlier, None):
+            try:
+                r.validate_rule(p, errs)
+            except Exception:  # noqa: BLE001
+                pass
+        before = list(earlier)
     try:
         got = r.child_insert_index(p, Node((foreign_name if foreign_name is not None else c01.FOREIGN_NAME) if c == c01.FOREIGN else c))
         res = ("idx", got)
@@ -36,6 +54,8 @@ def call_index(unit, element, w, c, rules, same_id=None, foreign_name=None):
         res = ("refused", -1)
     except Exception as e:  # noqa: BLE001
         res = ("raised", e)
+    if earlier is not None and earlier != before:
+        res = ("raised", RuntimeError("the error list of an earlier validation grew while the rule was asked for an insert position"))
     Node.store.clear()
     return res
 
@@ -57,13 +77,18 @@ def w_insert(idx):
             # ... and by look-alikes of the names the rule does allow
             cases += [(c01.FOREIGN, [], "foreign:" + h) for a in sorted(x for x in names_sigma if not x.startswith("~"))[:2]
                       for h in ("{u}" + a, "x}" + a, "x:" + a, a + " ", a.capitalize(), a + "s") if h not in names_sigma]
+        if i % 3 == 1 and unit != "@metadata":
+            cases += [(c, acc, "used-rule") for c, acc in list(accs.items()) + [(c01.FOREIGN, [])]]
         for c, acc, same_id in cases:
             fname = None
             if same_id and same_id.startswith("foreign:"):
                 fname, same_id = same_id[8:], None
-            kind, got = call_index(unit, el, w, c, rules, same_id, fname)
+            used = same_id == "used-rule"
+            if used:
+                same_id = None
+            kind, got = call_index(unit, el, w, c, rules, same_id, fname, used=used)
             n += 1
-            replay = {"kind": "insert", "unit": unit, "element": el, "children": w, "candidate": c, "acceptable": acc, "children_constructed_with_id": same_id}
+            replay = {"kind": "insert", "unit": unit, "element": el, "children": w, "candidate": c, "acceptable": acc, "children_constructed_with_id": same_id, "rule_object_used_before": used}
             unit_ = unit
             unit = unit + (":siblings-share-an-id" if same_id else "")
             if kind == "raised":
